@@ -133,7 +133,9 @@ def _post_resample(array, target_samplerate, result):
         t_in = np.asarray(array.time.data, float)
         s_in = float(t_in[-1] - t_in[0]) / (n_in - 1)
         extra = abs(n_in * float(target_samplerate) * (s_in - float(a_in)))
-        if abs(s_in - float(a_in)) > 1e-12 * float(a_in):
+        # ... by less than one of its own steps over its whole length (that is what a truncated length produces; a
+        # grossly wrong step attribute is something else and is not covered by the finding)
+        if 1e-12 * float(a_in) < abs(s_in - float(a_in)) and n_in * abs(s_in - float(a_in)) <= float(a_in) * (1 + 1e-6):
             mech = (1.0 + extra + 1e-6, "input_spacing_differs_from_its_advertised_step")
     check_axis(c, "time", result.time.data, result.time.attrs.get("step"), float(array.time.data[0]) if array.sizes["time"] else None, spec, "resample", mechanism=mech)
     return True
